@@ -617,6 +617,15 @@ func (g *Gen) trCall(e *CCall, env *Env) (string, VType) {
 		k, _ := g.trAs(e.Args[1], env, ks)
 		v, _ := g.trAs(e.Args[2], env, vs)
 		return fmt.Sprintf("(store %s %s %s)", a, k, v), at
+	case "slot":
+		// slot(arr, j, T): element j (raw index) of the backing array arr with element type T
+		a, _ := g.tr(e.Args[0], env)
+		j, _ := g.tr(e.Args[1], env)
+		vt, err := g.eng.resolveType(typeText(e.Args[2]), env.pkg)
+		if err != nil {
+			trFail("%v", err)
+		}
+		return fmt.Sprintf("(select (select %s %s) %s)", g.heapGet(env.heap, g.elemRegion(vt.Go)), a, j), vt
 	case "dyntype":
 		x, _ := g.trAs(e.Args[0], env, "Iface")
 		return fmt.Sprintf("(itype %s)", x), goInt
